@@ -111,6 +111,8 @@ struct Query {
     nq: usize,
     finite: bool,
     known: bool,
+    /// query variables that stand for the open TAIL of a list argument (`[e1, .., ek | t]`)
+    tails: Vec<usize>,
 }
 
 pub fn eval(q: &Query) -> (Prog, String, Option<String>, bool, u64) {
@@ -132,7 +134,7 @@ pub fn eval(q: &Query) -> (Prog, String, Option<String>, bool, u64) {
     // argument position(s) it occurs in
     let mut unis: Vec<Vec<T>> = vec![];
     for v in 0..q.nq {
-        let whole_list = q.args.iter().enumerate().any(|(i, a)| *a == T::Var(v) && is_list_pos(q.rel, i));
+        let whole_list = q.tails.contains(&v) || q.args.iter().enumerate().any(|(i, a)| *a == T::Var(v) && is_list_pos(q.rel, i));
         unis.push(if whole_list { list_universe() } else { elem_universe() });
     }
     let total: usize = unis.iter().map(|u| u.len()).product();
@@ -219,7 +221,20 @@ pub fn replay(line: &str, out: &mut Out) {
         _ => return,
     };
     let finite = p.take == 0;
-    record(&Query { rel, args, nq: p.nq, finite, known: false }, out);
+    // variables standing for the open tail of a list argument
+    let mut tails: Vec<usize> = vec![];
+    for a in &args {
+        let mut t = a;
+        let mut depth = 0;
+        while let T::Cons(_, tl) = t {
+            t = tl;
+            depth += 1;
+        }
+        if let (T::Var(k), true) = (t, depth > 0) {
+            tails.push(*k);
+        }
+    }
+    record(&Query { rel, args, nq: p.nq, finite, known: false, tails: tails.clone() }, out);
 }
 
 fn ground_list(r: &mut Rng, max: usize) -> T {
@@ -243,16 +258,25 @@ fn mode_finite(rel: &str, args: &[T]) -> bool {
 pub fn run(seed: u64, thorough: bool, out: &mut Out) {
     // the known finding: `permute` also relates a list to the permutations of its SUB-lists, because
     // `rember` succeeds when the element is absent; pinned by the repository's own test_permute_1
-    record(&Query { rel: "permute", args: vec![T::list(vec![T::Num(1), T::Num(2)]), T::Var(0)], nq: 1, finite: true, known: true }, out);
+    record(&Query { rel: "permute", args: vec![T::list(vec![T::Num(1), T::Num(2)]), T::Var(0)], nq: 1, finite: true, known: true, tails: vec![] }, out);
     let n = if thorough { 12000 } else { 900 };
     for i in 0..n {
         let mut r = Rng::new(seed, 24, i);
         let (rel, arity) = *r.pick(&RELS);
         let mut nq = 0;
         let mut args: Vec<T> = vec![];
+        let mut tails: Vec<usize> = vec![];
         for pos in 0..arity {
             let list_pos = is_list_pos(rel, pos);
-            let a = match r.below(4) {
+            let a = match r.below(5) {
+                // partially ground: a list term with an OPEN TAIL `[e1, .., ek | t]` passed directly as the argument
+                4 if list_pos => {
+                    let es: Vec<T> = (0..1 + r.below(2)).map(|_| T::Num(r.range(1, 3) as isize)).collect();
+                    nq += 1;
+                    tails.push(nq - 1);
+                    out.stat("open_tailed_list_arguments");
+                    es.into_iter().rev().fold(T::Var(nq - 1), |tl, h| T::cons(h, tl))
+                }
                 // a fresh variable standing for the whole argument
                 0 => {
                     nq += 1;
@@ -291,7 +315,7 @@ pub fn run(seed: u64, thorough: bool, out: &mut Out) {
             }
         }
         let finite = mode_finite(rel, &args);
-        record(&Query { rel, args, nq, finite, known: false }, out);
+        record(&Query { rel, args, nq, finite, known: false, tails: tails.clone() }, out);
     }
     if thorough {
         // exhaustive: every relation, every mode with whole-argument variables or ground lists of length <= 2 over {1,2}
@@ -313,6 +337,7 @@ pub fn run(seed: u64, thorough: bool, out: &mut Out) {
             for code in 0..total {
                 let mut k = code;
                 let mut nq = 0;
+                let tails: Vec<usize> = vec![];
                 let args: Vec<T> = choices
                     .iter()
                     .map(|c| {
@@ -335,7 +360,7 @@ pub fn run(seed: u64, thorough: bool, out: &mut Out) {
                 }
                 let finite = mode_finite(rel, &args);
                 out.stat("exhaustive_modes");
-                record(&Query { rel, args, nq, finite, known: false }, out);
+                record(&Query { rel, args, nq, finite, known: false, tails: tails.clone() }, out);
             }
         }
         out.exhaustive = true;
